@@ -14,10 +14,13 @@ import (
 	"context"
 	"errors"
 	"strings"
+	"sync"
 	"testing"
+	"time"
 
 	log "github.com/hashicorp/go-hclog"
 	metrics "github.com/hashicorp/go-metrics/compat"
+	"github.com/openbao/openbao/sdk/v2/helper/locksutil"
 	"github.com/openbao/openbao/sdk/v2/logical"
 	"github.com/openbao/openbao/sdk/v2/physical"
 	"github.com/openbao/openbao/sdk/v2/physical/inmem"
@@ -148,6 +151,41 @@ func (l logStore) Begin(ctx context.Context, ro bool) (txn, error) {
 type hookState struct {
 	atStart func()
 	after   func(err error)
+
+	// park: the next plain Get of this (physical) key is held right after the real storage read returned,
+	// i.e. inside cache.Get, which at that point holds the read lock of the key's stripe
+	mu   sync.Mutex
+	park *parkReq
+}
+
+type parkReq struct {
+	key     string
+	fetched chan string   // what the storage read returned
+	release chan struct{} // closed by the scheduler to let the reader go on
+}
+
+func (b *hookBackend) Get(ctx context.Context, key string) (*physical.Entry, error) {
+	e, err := b.TransactionalBackend.Get(ctx, key)
+	b.h.mu.Lock()
+	p := b.h.park
+	if p != nil && p.key == key {
+		b.h.park = nil
+	} else {
+		p = nil
+	}
+	b.h.mu.Unlock()
+	if p != nil {
+		switch {
+		case err != nil:
+			p.fetched <- errClass(err)
+		case e == nil:
+			p.fetched <- "nil"
+		default:
+			p.fetched <- "v:" + vh.Hex(e.Value)
+		}
+		<-p.release
+	}
+	return e, err
 }
 
 type hookBackend struct {
@@ -194,6 +232,7 @@ type below struct {
 	h      *hookState       // nil for the bare layer
 	raw    physical.Backend // the inmem backend itself
 	prefix string           // key prefix the layered store adds ("v/" behind the storage view)
+	purge  func()           // empties the parent cache
 }
 
 var layers = []string{"bare", "cache", "view"}
@@ -219,7 +258,7 @@ func newStore(t *testing.T, layer string) (store, *below) {
 		t.Fatal("cache over a transactional backend is not transactional")
 	}
 	if layer == "cache" {
-		return physStore{physKV{ctb}, ctb}, &below{h: hs, raw: tb}
+		return physStore{physKV{ctb}, ctb}, &below{h: hs, raw: tb, purge: func() { c.Purge(context.Background()) }}
 	}
 	ls := logical.NewLogicalStorage(ctb)
 	view := logical.NewStorageView(ls, "v/")
@@ -231,7 +270,7 @@ func newStore(t *testing.T, layer string) (store, *below) {
 	if err := ctb.Put(context.Background(), &physical.Entry{Key: "outside", Value: []byte{1}}); err != nil {
 		t.Fatal(err)
 	}
-	return logStore{logKV{view}, ts}, &below{h: hs, raw: tb, prefix: "v/"}
+	return logStore{logKV{view}, ts}, &below{h: hs, raw: tb, prefix: "v/", purge: func() { c.Purge(context.Background()) }}
 }
 
 // ---- canonical results ----
@@ -444,8 +483,108 @@ func (s *sched) cohere() {
 	s.out.Op(b.String(), append([]string{"cohere"}, s.g.keys...)...)
 }
 
+var lockWindowsLeft int
+
+func recvOr(ch chan string, d time.Duration) (string, bool) {
+	select {
+	case r := <-ch:
+		return r, true
+	case <-time.After(d):
+		return "timeout", false
+	}
+}
+
+// Commit window at LOCK granularity: a plain cache.Get runs in its own goroutine and is parked by the hook
+// below the cache right after the storage read returned (it holds the key's stripe read lock); the
+// transaction's Commit runs in another goroutine. The trace records the observed order of events:
+// rstart (parked / returned), cunder (verdict of the underlying commit), cwait (has Commit returned, or is it
+// blocked on the write lock of a stripe the parked reader holds), rrelease, commit.
+func (s *sched) lockWindow(id int) {
+	rng := s.g.rng
+	w := vh.I(int64(id))
+	kR := rng.Pick(s.g.keys)
+	if len(s.wset[id]) > 0 && rng.Chance(70) {
+		kR = rng.Pick(s.wset[id])
+	}
+	if rng.Chance(70) {
+		s.bl.purge()
+		s.out.Op("ok", "purge")
+	}
+	s.out.Op("ok", "cstart", w)
+	const long = 30 * time.Second
+	quiet := time.Duration(vh.EnvInt("VERIF_C08_QUIET_MS", 60)) * time.Millisecond
+
+	p := &parkReq{key: s.bl.prefix + kR, fetched: make(chan string, 1), release: make(chan struct{})}
+	s.bl.h.mu.Lock()
+	s.bl.h.park = p
+	s.bl.h.mu.Unlock()
+	gdone := make(chan string, 1)
+	go func() { gdone <- vh.Catch(func() string { return resGet(s.st.Get(s.ctx, kR)) }) }()
+	parked := false
+	var rres string
+	select {
+	case v := <-p.fetched:
+		parked, rres = true, "parked:"+v
+	case r := <-gdone:
+		rres = "ret:" + r // LRU hit: the storage below was not consulted
+	case <-time.After(long):
+		rres = "timeout"
+	}
+	if !parked {
+		s.bl.h.mu.Lock()
+		s.bl.h.park = nil
+		s.bl.h.mu.Unlock()
+	}
+	s.out.Op(rres, "rstart", kR)
+
+	underCh := make(chan string, 1)
+	s.bl.h.after = func(err error) { underCh <- resErr(err) }
+	cdone := make(chan string, 1)
+	go func() { cdone <- vh.Catch(func() string { return resErr(s.txns[id].Commit(s.ctx)) }) }()
+	under, _ := recvOr(underCh, long)
+	s.out.Op(under, "cunder", w)
+
+	// Only the LENGTH of the wait depends on what is expected: where the locks say Commit must be blocked we
+	// watch a quiet period; otherwise we give it all the time it wants.
+	expectBlocked := false
+	if parked && under == "ok" {
+		for _, k := range s.wset[id] {
+			if locksutil.LockIndexForKey(s.bl.prefix+k) == locksutil.LockIndexForKey(s.bl.prefix+kR) {
+				expectBlocked = true
+			}
+		}
+	}
+	wait := long
+	if expectBlocked {
+		wait = quiet
+	}
+	cres, returned := recvOr(cdone, wait)
+	if returned {
+		s.out.Op("ret:"+cres, "cwait", w)
+	} else {
+		s.out.Op("blocked", "cwait", w)
+	}
+	if parked {
+		close(p.release)
+		r, _ := recvOr(gdone, long)
+		s.out.Op("ret:"+r, "rrelease")
+	}
+	if !returned {
+		cres, _ = recvOr(cdone, long)
+	}
+	s.out.Op(cres, "commit", w)
+	s.done[id] = true
+	s.cohere()
+	s.dump()
+}
+
 func (s *sched) finish(id int, commit bool) {
 	w := vh.I(int64(id))
+	if commit && s.bl.h != nil && !s.done[id] && lockWindowsLeft > 0 && s.g.rng.Chance(35) {
+		lockWindowsLeft--
+		s.lockWindow(id)
+		return
+	}
 	if commit && s.bl.h != nil && !s.done[id] && s.g.rng.Chance(50) {
 		// commit in micro-steps: concurrent plain readers at the two hook points of the commit window
 		r0, r1 := s.readerKeys(id), s.readerKeys(id)
@@ -485,6 +624,13 @@ func runCase(t *testing.T, out *vh.Out, rng *vh.Rand, layer string, steps int) {
 	st, bl := newStore(t, layer)
 	s := &sched{t: t, out: out, ctx: context.Background(), st: st, bl: bl, g: newCaseGen(rng)}
 	out.Op("ok", "layer", layer)
+	if bl.h != nil {
+		f := []string{"stripes"}
+		for _, k := range s.g.keys {
+			f = append(f, k, vh.I(int64(locksutil.LockIndexForKey(bl.prefix+k))))
+		}
+		out.Op("ok", f...)
+	}
 	// initial population
 	for _, k := range s.g.keys {
 		if rng.Chance(60) {
@@ -568,8 +714,10 @@ func TestVerifC08Inmem(t *testing.T) {
 	defer out.Close()
 	rng := vh.NewRand(vh.Seed())
 	n := vh.EnvInt("VERIF_C08_CASES", 3000)
+	lockWindowsLeft = vh.EnvInt("VERIF_C08_LOCKWINDOWS", 150)
 	if vh.Thorough() {
 		n = vh.EnvInt("VERIF_C08_CASES", 200000)
+		lockWindowsLeft = vh.EnvInt("VERIF_C08_LOCKWINDOWS", 4000)
 	}
 	for i := 0; i < n; i++ {
 		cr := rng.Fork(uint64(i))
